@@ -7,6 +7,10 @@
 3. code->spec: the grid (rejection point x number of WRITEs x device ordering x reason x packetisation), for
    push and pull, sync and async, plus status ids that are not valid at that point; every call is one trace
    judged by SyncMon in TraceSync (FailSurfaces, CarriesReason, InvalidStatus, NeverSucceeds, NoTimeoutInstead).
+4. The record-level design spec AdbSyncOp (stat / list / pull / pull with callback against every reply script of up to 3
+   (thorough: 4) records over {DATA, DENT, DONE, STAT, FAIL, OKAY}, then silence, x the sink's k-th write failing):
+   FailSurfaces, InvalidStatus, ExactOnReturn, StatRule, ClosesOnce hold on the spec; TLC prints the expected
+   observables of every row, each row is replayed on the real code (outcome class, records handed over, CLSEs sent).
 """
 import random
 
@@ -100,10 +104,40 @@ def grid(ctx, rng):
     return specs
 
 
+def reply_scripts(ctx):
+    """Record-level design spec AdbSyncOp: every reply script (any ids, valid at that point or not, then silence) x sink failure,
+    enumerated by TLC with the expected observables, replayed on stat / list / pull / pull with callback, sync and async."""
+    from .. import syncop
+    rows = syncop.rows(ctx, 3 if ctx.quick else 4)
+    n = 0
+    for i, row in enumerate(rows):
+        for mi, mode in enumerate(('sync', 'async')):
+            if ctx.quick and (i + mi) % 2:
+                continue
+            reply_len = len(syncop.render('pull' if row['op'] == 'pullcb' else row['op'], row['script']))
+            cuts = None if (i // 2) % 3 == 0 or reply_len < 2 else sorted({1 + (i * 7) % (reply_len - 1), 1 + (i * 13 + 5) % (reply_len - 1)})
+            obs = syncop.run_row(mode, row, cuts)
+            n += 1
+            clause = syncop.compare(row, obs)
+            if clause:
+                ctx.violation(clause, dict(kind='reply script', mode=mode, operation=row['op'], script=row['script'], sink_fails_at_write=row['failAt'], write_cuts=cuts,
+                                           expected=dict(outcome=row['outcome'], items=row['items'], closes=row['nclse']), observed=obs))
+                if len(ctx.violations) >= 3:
+                    break
+        if len(ctx.violations) >= 3:
+            break
+    ctx.count(evaluations=n, distinct=len(rows))
+    ctx.extra['reply_script_rows'] = len(rows)
+    ctx.extra['reply_script_runs'] = n
+
+
 def body(ctx):
     rng = random.Random(ctx.seed)
     f5 = any(f.status == 'open' and f.fid == 'F5' for f in load_findings())
     design(ctx, f5)
+    reply_scripts(ctx)
+    if ctx.violations:
+        return
     # tour (design conformance)
     prog, rep = {'t1': tour.PUSH2FAIL}, {'t1': [[1], []]}
     K1b, F5b, REG = as_built()
